@@ -491,7 +491,15 @@ class World:
         }
         w.side = random.Random(12345)
         w.use_side = False
-        os.urandom = lambda n: bytes((w.side if w.use_side else w.rnd).getrandbits(8) for _ in range(n))
+        w.forced4 = []       # values for the next 4-byte draws (CHILD_SA SPIs); None = draw as usual
+
+        def urandom(n):
+            if n == 4 and not w.use_side and w.forced4:
+                v = w.forced4.pop(0)
+                if v is not None:
+                    return bytes(v)
+            return bytes((w.side if w.use_side else w.rnd).getrandbits(8) for _ in range(n))
+        os.urandom = urandom
         M.SystemRandom = lambda: w.rnd
         rshim = types.SimpleNamespace(uniform=lambda a, b: round(w.rnd.uniform(a, b) * 1024) / 1024, randint=lambda a, b: w.rnd.randint(a, b))
         IKESA.random = rshim
